@@ -54,6 +54,11 @@ def cases(tier):
                                             continue
                                         out.append({"fault": fault, "n": n, "k": k, "j": j, "clock": clock, "second": second,
                                                     "cycles": cycles, "tpos": tpos, "fpos": fpos, "lim": lim})
+                                        # handled signals with the shutdown drain switched off (the signal part of the
+                                        # property is unconditional): only the handler's own flush delivers the statements
+                                        if fault in SIGS and fpos < 0 and lim == 0 and clock == "system" and (second == "none" or not q):
+                                            out.append({"fault": fault, "n": n, "k": k, "j": j, "clock": clock, "second": second,
+                                                        "cycles": cycles, "tpos": tpos, "fpos": fpos, "lim": lim, "nowait": 1})
     return out
 
 
@@ -132,7 +137,7 @@ def run(ctx):
                 "SIGSEGV, SIGABRT, SIGFPE, SIGILL, SIGINT, SIGTERM with the built-in handler} x backend progress at the fault "
                 "(provably stuck in a gated sink after exactly j writes, j = 0..k, or asleep with a one-hour sleep) x clock source "
                 "x second thread {none, finished, alive and parked} logging after the main thread's statement number tpos (so both "
-                "registration orders occur) x optional flusher thread blocked in flush_log() from position fpos on x backend buffering limits {default, 1, 2 statements per queue and pass} x start/stop cycles {1, 2}; each case is one child process on "
+                "registration orders occur) x optional flusher thread blocked in flush_log() from position fpos on x backend buffering limits {default, 1, 2 statements per queue and pass} x start/stop cycles {1, 2} x (handled signals) wait_for_queues_to_empty_before_exit {on, off}; each case is one child process on "
                 "the real Backend::start thread, judged from outside by wait status and log file content; "
                 "distinct = distinct (case, outcome) pairs")
     exe = vf.build("crashx_child", SRC, FLAGS)
